@@ -3,7 +3,7 @@
  'functions': ['pool_engage', 'slist_add'],
  'extract': 'units/C10/pool_extract.py',
  'clauses': 'pool_engage(pool, zone, n*elemsz, elemsz) for EVERY cell count n (loop contract, no bound): every cell zone+k*elemsz is pushed exactly once - afterwards cell k links to cell k-1, cell 0 links to the previous first element (the head itself for a pool_init\'ed pool) and the head links to cell n-1, i.e. the free list is the simple path n-1, ..., 1, 0 of distinct aligned cells inside the zone; every write stays inside [zone, zone+size) (exact-size object) and only link fields are written (ghost byte index); the code\'s own assert(size % elemsz == 0) holds; terminates (decreases clause)',
- 'params': {'ELEMSZ': [8, 16, 24, 40]},
+ 'params': {'ELEMSZ': [8, 16, 24]}, 'params_thorough': {'ELEMSZ': [8, 16, 24, 40]},
  'inject': [{'file': 'overlay:cxx/pool_c.c', 'func': 'pool_engage', 'loop': 0, 'expect': 'it < stop',
              'assigns': 'it, pool->free_blocks.next, __CPROVER_object_whole(zone)',
              'invariants': ['__CPROVER_same_object(it, zone) && (size_t)__CPROVER_POINTER_OFFSET(it) <= size && (size_t)__CPROVER_POINTER_OFFSET(it) % ELEMSZ == 0',
